@@ -29,7 +29,13 @@ SObj(v, T, env, ex) ==
 
 SMem(v, T, env, ex) ==
   CASE T.t = "prim" -> (CASE T.p = "null" -> v.k = "null" [] T.p = "boolean" -> v.k = "bool" [] T.p = "number" -> v.k = "num"
-                          [] T.p = "string" -> v.k = "str" [] T.p \in {"any", "unknown"} -> TRUE [] OTHER -> FALSE)
+                          [] T.p = "string" -> v.k = "str" [] T.p \in {"any", "unknown"} -> TRUE
+                          \* the tags without proper subtypes (bigint, Date): one kind of value each
+                          [] T.p = "bigint" -> v.k = "big" [] T.p = "Date" -> v.k = "date" [] OTHER -> FALSE)
+    \* typed arrays are told apart by their constructor; Map / Set hold entries / members of the argument types
+    [] T.t = "ta"    -> v.k = "ta" /\ v.c = T.c
+    [] T.t = "map"   -> v.k = "map" /\ \A i \in DOMAIN v.es : SMem(v.es[i].mk, T.kt, env, ex) /\ SMem(v.es[i].mv, T.vt, env, ex)
+    [] T.t = "set"   -> v.k = "set" /\ \A i \in DOMAIN v.es : SMem(v.es[i], T.e, env, ex)
     [] T.t = "lit"   -> v = T.v
     \* (template literal types are outside the fragment of C05 - C07; TsEval meets them as operands of Exclude / Extract)
     [] T.t = "tpl"   -> v.k = "str" /\ TplM3(v.s, T.parts, {}) = "T"
@@ -57,6 +63,9 @@ LitsOf(T, env, seen) ==
       FoldU(s) == IF s = <<>> THEN EmpL ELSE UnL(Head(s), FoldU(Tail(s)))
   IN CASE T.t = "lit" -> IF T.v.k = "num" THEN [EmpL EXCEPT !.nums = {T.v.n}] ELSE IF T.v.k = "str" THEN [EmpL EXCEPT !.strs = {T.v.s}] ELSE EmpL
        [] T.t = "arr" -> LitsOf(T.e, env, seen)
+       [] T.t = "set" -> LitsOf(T.e, env, seen)
+       \* a Map with two entries needs two distinct keys: a second fresh string and number wherever a Map is mentioned
+       [] T.t = "map" -> UnL([EmpL EXCEPT !.strs = {"zy"}, !.nums = {"8"}], UnL(LitsOf(T.kt, env, seen), LitsOf(T.vt, env, seen)))
        [] T.t = "tuple" -> UnL([EmpL EXCEPT !.maxlen = Len(T.es)], FoldU([i \in DOMAIN (T.es \o T.r) |-> LitsOf((T.es \o T.r)[i], env, seen)]))
        [] T.t = "obj" -> UnL([EmpL EXCEPT !.keys = {T.ps[i].key : i \in DOMAIN T.ps}],
                            UnL(FoldU([i \in DOMAIN T.ps |-> LitsOf(T.ps[i].ty, env, seen)]),
@@ -82,8 +91,17 @@ RECURSIVE WitK(_, _, _, _, _)
 WitK(T, env, C, fuel, K) ==
   CASE T.t = "prim" -> (CASE T.p = "null" -> {VNull} [] T.p = "boolean" -> {VBool(TRUE), VBool(FALSE)}
                           [] T.p = "number" -> {VNum(n) : n \in C.nums} [] T.p = "string" -> {VStr(s) : s \in C.strs}
-                          [] T.p \in {"any", "unknown"} -> {VNull, VNum("7"), VStr("zz"), VObj(<<>>), VArr(<<>>)}
+                          [] T.p \in {"any", "unknown"} -> {VNull, VNum("7"), VStr("zz"), VObj(<<>>), VArr(<<>>), VBig("1"), VDate("0"),
+                                                              VMap(<<>>), VSet(<<>>), VTa("Uint8Array", <<>>)}
+                          [] T.p = "bigint" -> {VBig("1")} [] T.p = "Date" -> {VDate("0")}
                           [] OTHER -> {})
+    [] T.t = "ta"  -> {VTa(T.c, <<>>)}
+    \* Maps with no, one and two entries (two distinct keys), Sets with no, one and two (distinct) members
+    [] T.t = "map" -> LET Wk == TakeS(WitK(T.kt, env, C, fuel, K), K.xw)  Wv == TakeS(WitK(T.vt, env, C, fuel, K), K.xw) IN
+                      {VMap(<<>>)} \cup {VMap(<<E(k, w)>>) : k \in Wk, w \in Wv}
+                      \cup {VMap(<<E(q[1], w1), E(q[2], w2)>>) : q \in {q \in Wk \X Wk : q[1] # q[2]}, w1 \in Wv, w2 \in Wv}
+    [] T.t = "set" -> LET W == TakeS(WitK(T.e, env, C, fuel, K), K.w) IN
+                      {VSet(<<>>)} \cup {VSet(<<w>>) : w \in W} \cup {VSet(<<q[1], q[2]>>) : q \in {q \in W \X W : q[1] # q[2]}}
     [] T.t = "lit" -> {T.v}
     [] T.t = "tpl" -> LET RECURSIVE One(_)
                           One(ps) == IF ps = <<>> THEN "" ELSE
